@@ -84,6 +84,9 @@ respace!(c12_trailing, S12, [A], "\u{1}", [A, SP], "\u{1}\u{4}", 2, 1);
 respace!(c12_leading_unknown, S12, [C], "\u{3}", [SP, C], "\u{4}\u{3}", 2, 1);
 //@ c12_space_run_nogroup {"desc":"a run of two spaces is skipped as a whole even when the SPACE category itself is declared non-grouping (group=0): \"<sp><sp>\" vs \"<sp>\" both yield no tokens","bounds":"N=2 vs N=1; dictionary S12D (SPACE: invoke 1, group 0, length 1)","symbolic":"costs, ids, matrix","functions":["Tokenizer::build_lattice_inner","Sentence::compute_groupable"],"fs":2048,"unwind":7,"timeout":1200,"mem_gb":16,"covers":"none"}
 respace!(c12_space_run_nogroup, S12D, [SP, SP], "\u{4}\u{4}", [SP], "\u{4}", 2, 0);
+const S12S3: Spec = Spec { sys: L_A_AB, user: None, cats: CATS_SPACE3, unk_mult: &[1, 1, 1, 1], nr: 2, nl: 2 };
+//@ c12_leading_space_is_fourth_category {"tier":"thorough","desc":"leading space run with SPACE declared as the fourth category (id 3): \"a\" vs \"<sp>a\"","bounds":"N=1 vs N=2; 4 categories, SPACE last","symbolic":"costs, ids, matrix","functions":["Tokenizer::ignore_space","Tokenizer::build_lattice_inner"],"fs":2048,"unwind":7,"timeout":1200,"mem_gb":16}
+respace!(c12_leading_space_is_fourth_category, S12S3, [A], "\u{1}", [SP, A], "\u{4}\u{1}", 2, 1);
 //@ c12_inner_1_vs_2 {"tier":"thorough","desc":"lengthening an inner space run changes nothing: \"a<sp>b\" vs \"a<sp><sp>b\" (the word after the gap connects to the word before it)","bounds":"N=3 vs N=4; dictionary S12","symbolic":"costs, ids, matrix","functions":["Tokenizer::build_lattice_inner","Sentence::compute_groupable","Lattice::insert_node","Lattice::append_top_nodes"],"fs":2048,"unwind":8,"timeout":2400,"mem_gb":24}
 respace!(c12_inner_1_vs_2, S12, [A, SP, B], "\u{1}\u{4}\u{2}", [A, SP, SP, B], "\u{1}\u{4}\u{4}\u{2}", 3, 2);
 //@ c12_trailing_2_vs_1 {"tier":"thorough","desc":"shortening a trailing run: \"b<sp><sp>\" vs \"b<sp>\" with dense unknown words","bounds":"N=3 vs N=2; dictionary S12D","symbolic":"costs, ids, matrix","functions":["Tokenizer::build_lattice_inner"],"fs":2048,"unwind":8,"timeout":2400,"mem_gb":24}
@@ -101,6 +104,16 @@ fn c12_ignore_space_needs_space_category() {
     let r = t.ignore_space(true);
     assert!(r.is_err(), "ignore_space accepted without a SPACE category");
     core::mem::forget(r);
+    // SPACE declared as the fourth category: the category *bit* is 1 << 3
+    let s3 = Spec { sys: L_A, user: None, cats: CATS_SPACE3, unk_mult: &[1, 1, 1, 1], nr: 1, nl: 1 };
+    let t3 = Tokenizer::new(dict_of(&s3));
+    match t3.ignore_space(true) {
+        Ok(t) => {
+            assert!(t.verif_space_cateset() == Some(1 << 3), "the SPACE category set is not the bit of the SPACE category");
+            core::mem::forget(t);
+        }
+        Err(_) => assert!(false, "ignore_space rejected although SPACE is defined"),
+    }
     let t = Tokenizer::new(dict_of(&S12));
     match t.ignore_space(true) {
         Ok(t) => {
